@@ -159,6 +159,17 @@ def structure_obligation(job, objs):
         bad.append("S.flip().flip() != S")
     if build_sig(spec, reverse=True) != S:
         bad.append("equal member sets declared in another order compare unequal")
+    # one flip reverses every member, so a signature with at least one member differs from its own flip (whichever side the
+    # proxy stands on), an object does not comply with the flip of its signature, and two separately built equal signatures
+    # stay equal after flipping both
+    S2 = build_sig(spec, reverse=True)
+    nonempty = len(spec[1]) > 0
+    if (S == S.flip()) == nonempty or (S.flip() == S) == nonempty or (S != S.flip()) != nonempty:
+        bad.append(f"S == S.flip() is {S == S.flip()}, S.flip() == S is {S.flip() == S} for a signature with {len(spec[1])} members")
+    if not (S == S2 and S2 == S and S.flip() == S2.flip()) or (nonempty and (S == S2.flip() or S2.flip() == S)):
+        bad.append("equality with a separately built equal signature / its flip is wrong")
+    if nonempty and (S.is_compliant(flipped(S.create(path=("o",)))) or S.flip().is_compliant(S.create(path=("o",)))):
+        bad.append("an object complies with the flip of its own signature")
     for name, obj, fl in objs:
         sig = obj.signature
         reasons = []
